@@ -557,6 +557,118 @@ def element_correspondence(tier, seed):
     return len(cases), bad, dict(stats)
 
 
+CONTAINER_LEVEL = True       # switched on with the rdfelems request of the model driver
+
+
+def elements_container_correspondence(tier, seed):
+    """model RdfVal.rdf_element_blocks / rdf_read_elements vs the implementation: documents holding several elements and
+    no relation (elements of all three kinds, asserted PROV subtypes such as prov:Person and prov:Plan, several records
+    under one identifier, several values per attribute): the set of triples written and the set of records read back"""
+    import datetime
+    import prov.model as M
+    from harness import impl as I
+    from prov.identifier import Identifier, Namespace
+    from rdflib import ConjunctiveGraph, URIRef, Literal
+    rng = random.Random(seed * 104729 + 11)
+    EXU, ZZU = "http://example.org/", "http://zz.test/ns#"
+    EX, ZZ = Namespace("ex", EXU), Namespace("zz", ZZU)
+    tz = datetime.timezone
+    names = [EX["k"], EX["k2"], ZZ["size"], M.PROV["type"], M.PROV["label"], M.PROV["location"], M.PROV["value"]]
+    values = ["", "plain", "two\nlines", "ünï", "1", 5, -7, 10 ** 20, True, False,   # (no 0 / 1 next to False / True: equal values share one slot of a value set; which survives follows the store order)
+              
+              datetime.datetime(2012, 3, 31, 9, 21), datetime.datetime(1999, 12, 31, 23, 59, 59, 999999, tzinfo=tz(datetime.timedelta(minutes=330))),
+              Identifier("http://u/x"), EX["e"], ZZ["T"], M.Literal("x", langtag="en"), M.Literal("abc", EX["MyType"])]
+    subtypes = {"Agent": ["Person", "Organization", "SoftwareAgent"], "Entity": ["Plan", "Collection", "EmptyCollection", "Bundle"], "Activity": []}
+    n = 80 if tier == "quick" else 800
+    cases, reqs = [], []
+    for i in range(n):
+        d = M.ProvDocument()
+        d.add_namespace(EX); d.add_namespace(ZZ)
+        recs = []
+        used = {}
+        for j in range(rng.choice([1, 2, 3, 4])):
+            kind = rng.choice(["Entity", "Agent", "Activity"])
+            ident = rng.choice(["s%d" % j, "s0"])
+            if used.setdefault(ident, kind) != kind:
+                continue                                  # each identifier names records of one kind
+            attrs = []
+            for _ in range(rng.choice([0, 1, 2, 3])):
+                a = rng.choice(names)
+                if a == M.PROV["value"] and any(x == a for x, _ in attrs):
+                    continue
+                attrs.append((a, rng.choice(values)))
+            if subtypes[kind] and rng.random() < 0.4:
+                attrs.append((M.PROV["type"], M.PROV[rng.choice(subtypes[kind])]))
+            r = d.new_record(M.PROV[kind], EX[ident], None, attrs)
+            recs.append([kind, I.sx_qn(r.identifier), [[I.sx_qn(a), I.sx_value(v)] for a, v in r.attributes]])
+        if not recs:
+            continue
+        try:
+            text = d.serialize(format="rdf")
+            g = ConjunctiveGraph()
+            g.parse(data=text, format="trig")
+            trip = [(str(s_), str(p_), o_) for s_, p_, o_ in g]
+            nss = [[p_, str(u_)] for p_, u_ in g.namespaces()]
+            d2 = M.ProvDocument.deserialize(content=text, format="rdf")
+            back = [[I.KIND_OF[type(x)], x.identifier.uri, sorted([[a.uri, I.sx_value(v)] for a, v in x.attributes], key=repr)] for x in d2.get_records()]
+            err = None
+        except Exception as ex_:
+            trip, nss, back, err = [], [], [], type(ex_).__name__ + ": " + str(ex_)[:200]
+        cases.append((d.get_provn(), trip, back, err))
+        reqs.append(dumps(["rdfelems", nss, recs]))
+    outs = [loads(x) for x in common.run_model_batch(reqs)]
+    bad = []
+    stats = Counter()
+
+    def term(o_):
+        if isinstance(o_, Literal):
+            return ["lit", str(o_), ["some", str(o_.datatype)] if o_.datatype is not None else "none",
+                    ["some", o_.language] if o_.language is not None else "none"]
+        return ["uri", str(o_)]
+
+    def strip_ns(x):
+        if isinstance(x, list) and len(x) == 4 and x[0] == "qn":
+            return ["qn-uri", x[2] + x[3]]
+        if isinstance(x, list):
+            return [strip_ns(y) for y in x]
+        return x
+
+    def canon(l):
+        return sorted({json.dumps(x, sort_keys=True) for x in l})
+    for (provn, trip, back, err), out in zip(cases, outs):
+        if out == "ood":
+            stats["outside the model"] += 1
+            continue
+        if not isinstance(out, list) or len(out) != 2:
+            bad.append({"document": provn[:700], "model": str(out)[:200]})
+            continue
+        mtrip, mback = out
+        if err is not None:
+            if isinstance(mback, list) and mback[0] == "raise":
+                stats["both raise"] += 1
+            else:
+                bad.append({"document": provn[:700], "implementation_error": err, "model": str(mback)[:200]})
+            continue
+        it, mt = canon([[s_, p_, term(o_)] for s_, p_, o_ in trip]), canon(mtrip)
+        if it != mt:
+            bad.append({"document": provn[:700], "what": "the triples written differ",
+                        "model_only": [x for x in mt if x not in it][:3], "implementation_only": [x for x in it if x not in mt][:3]})
+            continue
+        if mback == "ood":
+            stats["reading outside the model"] += 1
+            continue
+        if mback[0] != "ok":
+            bad.append({"document": provn[:700], "what": "the model's reader refuses", "model": str(mback)[:200]})
+            continue
+        want = canon([[r[1], r[2][2] + r[2][3], sorted([[a[2] + a[3], strip_ns(v)] for a, vs in r[3] for v in vs], key=repr)] for r in mback[1:]])
+        got = canon([[k_, u_, sorted([[a_, strip_ns(v_)] for a_, v_ in at_], key=repr)] for k_, u_, at_ in back])
+        if want != got:
+            bad.append({"document": provn[:700], "what": "the records read back differ", "model": want[:4], "implementation": got[:4]})
+            continue
+        stats["agree"] += 1
+    return len(cases), bad, dict(stats)
+
+
 def custom_name_finding():
     """C07-F1 witness: a custom attribute whose URI contains 'activity' on a communication"""
     import prov.model as M
@@ -698,6 +810,15 @@ def run(tier, seed, log, model_runs=True, enlarged=False):
             disagreements.append({"first_difference": json.dumps(b, ensure_ascii=False)[:1400],
                                   "theorem": "correspondence RdfVal.rdf_element_triples / rdf_read_element ~ provrdf encode_container / "
                                              "decode_container for one element (theorem C07_element_roundtrip is stated over the model)"})
+        if CONTAINER_LEVEL:
+            t5 = time.time()
+            nco, bad5, cstats = elements_container_correspondence(tier, seed)
+            npred += nco
+            log("element containers: %d documents, %d disagreements in %.1fs (%s)" % (nco, len(bad5), time.time() - t5, cstats))
+            for b in bad5[:2]:
+                disagreements.append({"first_difference": json.dumps(b, ensure_ascii=False)[:1400],
+                                      "theorem": "correspondence RdfVal.rdf_element_blocks / rdf_read_elements ~ provrdf encode_container / "
+                                                 "decode_container for containers of elements (theorem C07_elements_container is stated over the model)"})
     known = common.load_known_findings()
     known_lines = []
     witnesses = {"C07-F1": custom_name_finding, "C07-F2": alternate_finding, "C07-F3": scheme_prefix_finding}
